@@ -3,13 +3,14 @@ CONSTANTS
   CertKeys = {"k1","k2"}
   EncKeys = {"e1","e2"}
   Nonces = {"n1","n2"}
-  Tokens = {"t1","t2"}
+  Tokens = {"t1"}
   AppStates = {"s1"}
   NodeIds = {"N1"}
   Enabled = {"Authorize","Token","Remove","Regw","Fetch","Prev"}
-  MaxGen = 3
+  MaxGen = 2
   CfgSW = FALSE
   CfgNidl = FALSE
   CfgSO = FALSE
+  CfgRmErr = FALSE
 INVARIANTS InvC01
 CHECK_DEADLOCK FALSE
